@@ -547,7 +547,17 @@ pub fn replay_e1(r: &Value) -> i32 {
     let pi = r["program_index"].as_u64().unwrap_or(0);
     let strat = parse_strategy(r["strategy"].as_str().unwrap_or("rw"));
     let sseed = r["sched_seed"].as_u64().unwrap_or(0);
-    let prog = make_program(which, seed, pi);
+    let prog = if r["engine"].as_str() == Some("e1-bounded") {
+        let mut pool = tiny_programs();
+        pool.extend(small_programs());
+        let idx = r["tiny_program_index"].as_u64().unwrap_or(0) as usize;
+        match pool.get(idx) {
+            Some(p) => p.clone(),
+            None => return 3,
+        }
+    } else {
+        make_program(which, seed, pi)
+    };
     let mut cov = Cov {
         schedules: HashSet::new(),
         programs: HashSet::new(),
@@ -995,6 +1005,7 @@ pub fn run_c08(tier: Tier, seed: u64) -> i32 {
     level_into(Which::C08, &mut rep);
     let lvl_eval = rep.evaluations;
     run_queue_e1(&mut rep, budget(tier, 2_500, 60_000), budget(tier, 8, 24));
+    bounded_queue_sweep(&mut rep, tier.pick(3, 5), tier.pick(20_000, 400_000));
     run_queue_e2(&mut rep, ncpu().min(16), budget(tier, 40_000, 1_000_000));
     if tier == Tier::Thorough && std::env::var("PLV_NO_MIRI").is_err() {
         crate::miri::sweep(&mut rep, "queue", seed ^ 0x808, 4, budget(tier, 0, 96), "0.05");
@@ -1746,8 +1757,26 @@ fn explore_bounded(
     (runs, complete)
 }
 
+/// a fixed pool of slightly larger programs (2 threads x 2 operations), enumerated with a
+/// smaller preemption bound
+fn small_programs() -> Vec<Program> {
+    let mut out = Vec::new();
+    let mut rng = Rng::new(0x2b2);
+    let mut cfg = ProgCfg::base();
+    cfg.threads = (2, 2);
+    cfg.ops = (2, 2);
+    cfg.preload = (1, 3);
+    cfg.w = [12, 36, 22, 26, 4];
+    for _ in 0..96 {
+        out.push(conc::gen_program(&mut rng, &cfg));
+    }
+    out
+}
+
 pub fn bounded_sweep(which: Which, rep: &mut Report, bound: u32, max_programs: usize, max_runs_per_program: u64) {
-    let progs = tiny_programs();
+    let mut progs = tiny_programs();
+    let n_tiny = progs.len();
+    progs.extend(small_programs());
     let seed = rep.seed;
     let tier = rep.tier;
     let prop = which.id();
@@ -1777,7 +1806,9 @@ pub fn bounded_sweep(which: Which, rep: &mut Report, bound: u32, max_programs: u
         let mut k = w;
         while k < n {
             let pi = (k + offset) % progs.len();
-            let (runs, complete) = explore_bounded(which, &progs[pi], bound, &mut cov, &mut part, &mut lst, &mut ast, pi as u64, max_runs_per_program);
+            // the 2x2 pool gets one preemption less (its schedules are ~4x longer)
+            let b = if pi >= n_tiny { bound.saturating_sub(1).max(1) } else { bound };
+            let (runs, complete) = explore_bounded(which, &progs[pi], b, &mut cov, &mut part, &mut lst, &mut ast, pi as u64, max_runs_per_program);
             let mut d = done.lock().unwrap();
             d.0 += 1;
             d.1 += runs;
@@ -1798,10 +1829,186 @@ pub fn bounded_sweep(which: Which, rep: &mut Report, bound: u32, max_programs: u
     rep.set(
         "exhaustive_scope",
         json!(format!(
-            "for {} of the {} tiny programs (2 threads x 1 operation from {{match 2, match 9, cancel X, amend X->7, amend X->1, add, snapshot}} on 5 preloads, plus 3 three-thread programs) EVERY schedule with at most {} preemptions was executed; everything else is sampled",
+            "for {} of the {} small programs (138 tiny ones: 2 threads x 1 operation from {{match 2, match 9, cancel X, amend X->7, amend X->1, add, snapshot}} on 5 preloads, plus 3 three-thread programs; and a fixed pool of 96 generated 2 threads x 2 operations programs, with one preemption less) EVERY schedule with at most {} preemptions was executed; everything else is sampled",
             d.2,
             progs.len(),
             bound
         )),
     );
+}
+
+// ---------------------------------------------------------------------------------------------
+// Bounded-preemption enumeration for the bare queue (C08, second family)
+// ---------------------------------------------------------------------------------------------
+
+fn run_queue_script(pre: &[model::Order], threads: &[Vec<QOp>], strat: Strategy) -> (sched::ExecResult, Vec<QRec>, Vec<model::Order>, usize) {
+    crate::hook::install();
+    let q = Arc::new(OrderQueue::new());
+    for o in pre {
+        q.push(Arc::new(*o));
+    }
+    let log: Arc<Mutex<Vec<QRec>>> = Arc::new(Mutex::new(Vec::new()));
+    let mut bodies: Vec<Body> = Vec::new();
+    for (ti, ops) in threads.iter().enumerate() {
+        let q = q.clone();
+        let log = log.clone();
+        let ops = ops.clone();
+        bodies.push(Box::new(move |wk: &Worker| {
+            for op in ops.iter() {
+                let call = wk.stamp();
+                let got = match op {
+                    QOp::Push(o) => {
+                        q.push(Arc::new(*o));
+                        None
+                    }
+                    QOp::Pop => q.pop().map(|a| *a),
+                    QOp::Remove(id) => q.remove(*id).map(|a| *a),
+                    QOp::Find(id) => q.find(*id).map(|a| *a),
+                    QOp::PopRepush => {
+                        let g = q.pop();
+                        if let Some(a) = &g {
+                            q.push(a.clone());
+                        }
+                        g.map(|a| *a)
+                    }
+                };
+                let ret = wk.stamp();
+                log.lock().unwrap().push(QRec {
+                    thread: ti,
+                    op: op.clone(),
+                    call,
+                    ret,
+                    got,
+                });
+            }
+        }));
+    }
+    let exec = sched::run_exec(bodies, strat, 0, STEP_BUDGET, false, &mut |_| {});
+    let mut drained = Vec::new();
+    if exec.verdict == Verdict::Completed {
+        while let Some(a) = q.pop() {
+            drained.push(*a);
+            if drained.len() > 100 {
+                break;
+            }
+        }
+    }
+    let left = q.to_vec().len();
+    let log = std::mem::take(&mut *log.lock().unwrap());
+    (exec, log, drained, left)
+}
+
+fn tiny_queue_programs() -> Vec<(Vec<model::Order>, Vec<Vec<QOp>>)> {
+    let o = |n: u64| {
+        model::mk(
+            model::Kind::Standard,
+            model::oid(n),
+            10,
+            n,
+            0,
+            pricelevel::Side::Buy,
+            n,
+            pricelevel::TimeInForce::Gtc,
+            &model::Params::default(),
+        )
+    };
+    let pres: Vec<Vec<model::Order>> = vec![vec![], vec![o(1)], vec![o(1), o(2)]];
+    let x = model::oid(1);
+    let ops: Vec<QOp> = vec![QOp::Push(o(7)), QOp::Pop, QOp::Remove(x), QOp::Find(x), QOp::PopRepush];
+    let mut out = Vec::new();
+    for pre in &pres {
+        for (i, a) in ops.iter().enumerate() {
+            for (j, b) in ops.iter().enumerate() {
+                if j < i {
+                    continue;
+                }
+                let mut b2 = b.clone();
+                if let (QOp::Push(_), QOp::Push(_)) = (a, b) {
+                    b2 = QOp::Push(o(8));
+                }
+                out.push((pre.clone(), vec![vec![a.clone()], vec![b2.clone()]]));
+                // and a variant in which the first thread does two operations
+                out.push((pre.clone(), vec![vec![a.clone(), QOp::Pop], vec![b2]]));
+            }
+        }
+    }
+    out
+}
+
+pub fn bounded_queue_sweep(rep: &mut Report, bound: u32, max_runs_per_program: u64) {
+    let progs = tiny_queue_programs();
+    let seed = rep.seed;
+    let tier = rep.tier;
+    let nw = ncpu();
+    let totals: Mutex<(u64, u64)> = Mutex::new((0, 0));
+    parallel(nw, rep, |w| {
+        let mut part = Report::new("C08", tier, seed, "exploration");
+        let mut k = w;
+        while k < progs.len() {
+            let (pre, threads) = &progs[k];
+            let mut stack: Vec<(Vec<u8>, u32)> = vec![(Vec::new(), 0)];
+            let mut runs = 0u64;
+            let mut complete = true;
+            while let Some((script, used)) = stack.pop() {
+                if runs >= max_runs_per_program {
+                    complete = false;
+                    break;
+                }
+                let strat = Strategy::Script { choices: script.clone() };
+                let (e, log, drained, left) = run_queue_script(pre, threads, strat.clone());
+                runs += 1;
+                part.evaluations += 1;
+                if e.verdict != Verdict::Completed {
+                    part.inconclusive(format!("[tiny queue program {} {}] {:?}", k, strat.describe(), e.verdict));
+                    continue;
+                }
+                part.distinct.insert(fnv_mix(e.trace_hash, 0x9000 + k as u64));
+                let n = e.trace.len();
+                for i in script.len()..n {
+                    let chosen = e.trace[i].0;
+                    let mask = e.runnable[i];
+                    let prev = if i == 0 { None } else { Some(e.trace[i - 1].0) };
+                    for a in 0..8u8 {
+                        if mask & (1 << a) == 0 || a == chosen {
+                            continue;
+                        }
+                        let preempt = match prev {
+                            Some(pv) => mask & (1 << pv) != 0 && a != pv,
+                            None => false,
+                        };
+                        let cost = used + if preempt { 1 } else { 0 };
+                        if cost > bound {
+                            continue;
+                        }
+                        let mut s2: Vec<u8> = e.trace[..i].iter().map(|t| t.0).collect();
+                        s2.push(a);
+                        stack.push((s2, cost));
+                    }
+                }
+                for f in queue_ledger(pre, &log, &drained, left).iter().take(1) {
+                    let mut l2 = log.clone();
+                    l2.sort_by_key(|r| r.call);
+                    part.violation(
+                        format!("[tiny queue program {} {}] {}", k, strat.describe(), f),
+                        json!({"engine": "e1-queue-bounded", "property": "C08", "tiny_program_index": k, "strategy": strat.describe(),
+                               "program": qprog_desc(pre, threads),
+                               "history": l2.iter().map(|r| format!("[{}..{}] T{} {:?} -> {:?}", r.call, r.ret, r.thread, r.op, r.got.map(|o| model::short(&o)))).collect::<Vec<_>>(),
+                               "finding": f}),
+                    );
+                }
+            }
+            let mut t = totals.lock().unwrap();
+            t.0 += runs;
+            if complete {
+                t.1 += 1;
+            }
+            k += nw;
+        }
+        part
+    });
+    let t = totals.lock().unwrap();
+    rep.set("queue_bounded_sweep_preemption_bound", json!(bound));
+    rep.set("queue_bounded_sweep_executions", json!(t.0));
+    rep.set("queue_bounded_sweep_programs_fully_enumerated", json!(t.1));
+    rep.set("queue_bounded_sweep_program_pool", json!(progs.len()));
 }
